@@ -245,3 +245,7 @@ pub mod num_cpus {
 pub fn vx_saturating_sub(a: usize, b: usize) -> (r: usize)
     ensures r == (if a >= b { a - b } else { 0 })
 { if a >= b { a - b } else { 0 } }
+
+// quick vacuity twin: stands for the (irrelevant) function body after the entry reachability probe
+#[verifier::external_body]
+pub fn vx_arbitrary<T>() -> (r: T) { unimplemented!() }
